@@ -30,13 +30,15 @@ def build_scenario(rng: random.Random, mode: str):
     huge = False
     U = 4 * tps
     Q = F(5, tps)            # the quantum: 20 units, a quarter of the memory read in one I/O tick; a*Q is an exact float
+    if mode == "orphan":
+        mode = "susp"
     if mode == "swarm":        # many small containers start at once in an overcommitted pool: ten and more victims in one tick
         npools, cpu, ram = 1, rng.choice([16, 24, 32, 80]), Q * rng.choice([16, 24, 32, 48])
         oc, multi = True, False
     elif mode == "pressure":
         npools, cpu, ram = rng.choice([1, 1, 2]), rng.choice([4, 6, 8]), Q * rng.choice([8, 12, 16, 24, 40])
         oc, multi = True, rng.random() < 0.5
-    elif mode == "susp":
+    elif mode in ("susp", "orphan"):
         npools, cpu, ram = rng.choice([1, 2]), rng.choice([3, 4, 8]), Q * rng.choice([32, 64, 40])
         oc, multi = rng.random() < 0.3, True
     else:
@@ -92,7 +94,10 @@ def build_scenario(rng: random.Random, mode: str):
 
 
 def run_one(seed: int, tid: int, mode: str):
-    """One trace.  mode: valid | mixed | pressure."""
+    """One trace.  mode: valid | mixed | pressure | susp | swarm | orphan."""
+    orphan_mode = mode == "orphan"
+    if orphan_mode:
+        mode = "susp"
     from eudoxia.executor.assignment import Assignment, Suspend
     from eudoxia.workload import OperatorState as S
 
@@ -104,7 +109,7 @@ def run_one(seed: int, tid: int, mode: str):
     ex, idx, exact, k = build_scenario(rng, mode)
     tps, npools, cpu, ram, oc, multi = k["tps"], k["npools"], k["cpu"], k["ram"], k["oc"], k["multi"]
     tr = ExecTrace(tid, ex, idx, k["U"], tps, mode="step", exact=exact, overcommit=oc, multi=multi,
-                   meta={"seed": seed, "driver": "B", "mode": mode})
+                   meta={"seed": seed, "driver": "B", "mode": "orphan" if orphan_mode else mode})
     valid = mode != "mixed"
     nticks = rng.randint(5, 40) if mode != "swarm" else rng.randint(6, 14)
     pipes = list(zip(idx.pipes, idx.ops))
@@ -136,7 +141,14 @@ def run_one(seed: int, tid: int, mode: str):
             pi = rng.randrange(len(pipes))
             p, ops = pipes[pi]
             legal = [i for i, o in enumerate(ops) if o.state() in (S.PENDING, S.FAILED)]
-            if valid or rng.random() < 0.9:
+            orphan = [i for i in legal if any(q.state() != S.COMPLETED for q in ops[i].parents)]
+            # (orphan mode: an otherwise admissible run that, once some suspension has finished, starts a handed-back operator ahead of its parent)
+            if orphan_mode and orphan and any(R.suspended_containers for R in ex.pools) and rng.random() < 0.5:
+                sel = [rng.choice(orphan)]
+                valid = False
+            elif not valid and orphan and rng.random() < 0.25:
+                sel = [rng.choice(orphan)]                 # a child on its own while a parent is unfinished: must be rejected, never executed
+            elif valid or rng.random() < 0.9:
                 if not legal:
                     continue
                 if multi and rng.random() < (0.9 if mode == "susp" else 0.6):
